@@ -57,8 +57,22 @@ Definition random_connections (n m : nat) (p1 p2 : list nat) : list nat * list n
 Definition triu (P : nat) : list (nat * nat) :=
   flat_map (fun i => map (fun j => (i, j)) (seq (S i) (P - S i))) (seq 0 P).
 
-Definition conv_unique_pairs (P s : nat) (perm : list nat) : option (list (nat * nat)) :=
-  if s <=? P * (P - 1) / 2 then Some (map (fun t => nth t (triu P) (0, 0)) (firstn s perm)) else None.
+(* the sampler numbers the pairs of the strict upper triangle row by row, draws numbers with replacement (batches of randint,
+   concatenated in `draws`) and keeps the first s distinct ones in order of first occurrence; a number is turned back into its pair *)
+Fixpoint first_distinct (s : nat) (draws seen : list nat) {struct draws} : list nat :=
+  match draws with
+  | [] => []
+  | v :: r =>
+      match s with
+      | O => []
+      | S s' => if existsb (Nat.eqb v) seen then first_distinct s r seen else v :: first_distinct s' r (v :: seen)
+      end
+  end.
+
+Definition unrank (P v : nat) : nat * nat := nth v (triu P) (0, 0).
+
+Definition conv_unique_pairs (P s : nat) (draws : list nat) : option (list (nat * nat)) :=
+  if s <=? P * (P - 1) / 2 then Some (map (unrank P) (first_distinct s draws [])) else None.
 
 (* position index -> (h, w, c) of the meshgrid(h, w, c, indexing='ij') flattening *)
 Definition position (wk cn idx : nat) : nat * nat * nat := (idx / (wk * cn), (idx / cn) mod wk, idx mod cn).
